@@ -111,16 +111,22 @@ impl ReadZone {
                 }
             }
             Some(Special::NxDomain) => {
-                if walk.enabled() {
-                    self.query_children(
-                        node.children(),
-                        label,
-                        qname,
-                        qtype,
-                        walk,
-                    );
+                // The node has no RRsets of its own in this version, but
+                // names below it may exist (the node is an empty
+                // non-terminal then), so keep descending.
+                let walking = walk.enabled();
+                let answer = self.query_children(
+                    node.children(),
+                    label,
+                    qname,
+                    qtype,
+                    walk,
+                );
+                if walking {
+                    NodeAnswer::nx_domain()
+                } else {
+                    answer
                 }
-                NodeAnswer::nx_domain()
             }
             Some(Special::Cname(cname)) => {
                 if walk.enabled() {
@@ -156,7 +162,16 @@ impl ReadZone {
         node.with_special(self.version, |special| match special {
             Some(Special::Cut(cut)) => self.query_at_cut(cut, qtype),
             Some(Special::Cname(cname)) => NodeAnswer::cname(cname.clone()),
-            Some(Special::NxDomain) => NodeAnswer::nx_domain(),
+            Some(Special::NxDomain) => {
+                if walk.enabled() {
+                    NodeAnswer::nx_domain()
+                } else {
+                    // We only get here for nodes that exist in this version
+                    // (see query_children), so this is an empty
+                    // non-terminal.
+                    NodeAnswer::no_data()
+                }
+            }
             None => self.query_rrsets(node.rrsets(), qtype, walk),
         })
     }
@@ -267,8 +282,13 @@ impl ReadZone {
 
         // Step 1: See if we have a non-terminal child for label. If so,
         //         continue there.
+        //
+        //         Nodes are never removed from the tree and are created
+        //         before a writer commits, so only a node that exists in
+        //         our version of the zone counts.
         let answer = children.with(label, |node| {
-            node.map(|node| self.query_node(node, qname, qtype, walk.clone()))
+            node.filter(|node| self.node_exists(node))
+                .map(|node| self.query_node(node, qname, qtype, walk.clone()))
         });
         if let Some(answer) = answer {
             return answer;
@@ -277,11 +297,23 @@ impl ReadZone {
         // Step 2: Now see if we have an asterisk label. If so, query that
         // node.
         children.with(Label::wildcard(), |node| match node {
-            Some(node) => {
+            Some(node) if self.node_exists(node) => {
                 self.query_node_here_but_not_below(node, qtype, walk)
             }
-            None => NodeAnswer::nx_domain(),
+            _ => NodeAnswer::nx_domain(),
         })
+    }
+
+    /// Returns whether the name of a node exists in our version of the zone.
+    ///
+    /// A name exists if it is a zone cut or CNAME or owns an RRset in this
+    /// version, or if a name below it exists (which makes it an empty
+    /// non-terminal, see RFC 4592 section 2.2.2).
+    fn node_exists(&self, node: &ZoneNode) -> bool {
+        node.with_special(self.version, |special| {
+            matches!(special, Some(Special::Cut(_) | Special::Cname(_)))
+        }) || !node.rrsets().is_empty(self.version)
+            || node.children().any(|child| self.node_exists(child))
     }
 }
 
